@@ -278,4 +278,120 @@ theorem fs_step (env : Env) (pre rest : Str) :
             rw [e1, e2, e3, hr, hcons]
             exact fs_leaf env pre c
 
+/-! ### the scan as a relation on the text -/
+
+/-- **what the finder finds**, on the text alone: `FsFinds env p rest h` — scanning `rest` (with `p` the text
+    before it) gives the hit `h`.  `h` comes from the FIRST candidate of the candidate sequence that is accepted
+    (number reads, unit word known to the converter); every candidate before it failed and was skipped whole. -/
+inductive FsFinds (env : Env) : Str → Str → InlineHit α → Prop
+  | here (p rest : Str) (c : FsCand) (n : α) :
+      fsNextCand env.cs rest = some c → fsAccept (α := α) env c = some n → FsFinds env p rest (fsHit env p c n)
+  | later (p rest : Str) (c : FsCand) (h : InlineHit α) :
+      fsNextCand env.cs rest = some c → fsAccept (α := α) env c = none →
+      FsFinds env (p ++ c.skipped ++ c.src) c.after h → FsFinds env p rest h
+
+/-- no candidate of the candidate sequence from `rest` on is accepted -/
+inductive FsNothing (α : Type) [Arith α] (env : Env) : Str → Prop
+  | done (rest : Str) : fsNextCand env.cs rest = none → FsNothing α env rest
+  | skip (rest : Str) (c : FsCand) :
+      fsNextCand env.cs rest = some c → fsAccept (α := α) env c = none → FsNothing α env c.after → FsNothing α env rest
+
+theorem fs_after_shorter (env : Env) (hd : DigitsNotWs env.cs) (rest : Str) (c : FsCand)
+    (hc : fsNextCand env.cs rest = some c) : c.after.length < rest.length := by
+  have hp := inlineStep_progress (α := Rat) env hd [] rest
+  rw [fs_step, hc] at hp
+  dsimp only at hp
+  cases ha : fsAccept (α := Rat) env c with
+  | some n => rw [ha] at hp; exact hp _ rfl
+  | none => rw [ha] at hp; exact hp _ rfl
+
+/-- the relation is functional: a text gives at most one hit -/
+theorem fs_finds_unique (env : Env) (p rest : Str) (h1 h2 : InlineHit α)
+    (a : FsFinds env p rest h1) (b : FsFinds env p rest h2) : h1 = h2 := by
+  induction a with
+  | here p rest c n hc ha =>
+    cases b with
+    | here _ _ c' n' hc' ha' =>
+      rw [hc] at hc'; cases hc'
+      rw [ha] at ha'; cases ha'; rfl
+    | later _ _ c' _ hc' ha' _ =>
+      rw [hc] at hc'; cases hc'
+      rw [ha] at ha'; cases ha'
+  | later p rest c h hc ha _ ih =>
+    cases b with
+    | here _ _ c' n' hc' ha' =>
+      rw [hc] at hc'; cases hc'
+      rw [ha] at ha'; cases ha'
+    | later _ _ c' _ hc' ha' b' =>
+      rw [hc] at hc'; cases hc'
+      exact ih b'
+
+/-- a hit and "nothing" exclude each other -/
+theorem fs_finds_not_nothing (env : Env) (p rest : Str) (h : InlineHit α)
+    (a : FsFinds env p rest h) : ¬ FsNothing α env rest := by
+  induction a with
+  | here p rest c n hc ha =>
+    intro b
+    cases b with
+    | done _ hc' => rw [hc] at hc'; cases hc'
+    | skip _ c' hc' ha' _ => rw [hc] at hc'; cases hc'; rw [ha] at ha'; cases ha'
+  | later p rest c h hc ha _ ih =>
+    intro b
+    cases b with
+    | done _ hc' => rw [hc] at hc'; cases hc'
+    | skip _ c' hc' ha' b' => rw [hc] at hc'; cases hc'; exact ih b'
+
+/-- **soundness and completeness of the finder, with any fuel above the length of the text**: it returns `some h`
+    exactly when the text gives the hit `h`, and `none` exactly when no candidate of the sequence is accepted -/
+theorem fs_find_spec (env : Env) (hd : DigitsNotWs env.cs) :
+    ∀ (fuel : Nat) (pre rest : Str), rest.length < fuel →
+      match findInlineQuantity (α := α) env fuel pre rest with
+      | some h => FsFinds env pre.reverse rest h
+      | none => FsNothing α env rest := by
+  intro fuel
+  induction fuel with
+  | zero => intro pre rest h; omega
+  | succ fuel ih =>
+    intro pre rest hl
+    rw [findInlineQuantity_succ, fs_step]
+    cases hc : fsNextCand env.cs rest with
+    | none => exact FsNothing.done rest hc
+    | some c =>
+      dsimp only
+      cases ha : fsAccept (α := α) env c with
+      | some n => exact FsFinds.here _ rest c n hc ha
+      | none =>
+        dsimp only
+        have hsh := fs_after_shorter env hd rest c hc
+        have := ih ((c.skipped ++ c.src).reverse ++ pre) c.after (by omega)
+        cases hf : findInlineQuantity (α := α) env fuel ((c.skipped ++ c.src).reverse ++ pre) c.after with
+        | none => rw [hf] at this; exact FsNothing.skip rest c hc ha this
+        | some h =>
+          rw [hf] at this
+          refine FsFinds.later _ rest c h hc ha ?_
+          have e : ((c.skipped ++ c.src).reverse ++ pre).reverse = pre.reverse ++ c.skipped ++ c.src := by simp
+          rw [e] at this
+          exact this
+
+theorem fs_find_iff (env : Env) (hd : DigitsNotWs env.cs) (fuel : Nat) (pre rest : Str) (hl : rest.length < fuel)
+    (h : InlineHit α) :
+    findInlineQuantity (α := α) env fuel pre rest = some h ↔ FsFinds env pre.reverse rest h := by
+  have hs := fs_find_spec (α := α) env hd fuel pre rest hl
+  constructor
+  · intro e; rw [e] at hs; exact hs
+  · intro a
+    cases hf : findInlineQuantity (α := α) env fuel pre rest with
+    | none => rw [hf] at hs; exact absurd hs (fs_finds_not_nothing env _ rest h a)
+    | some h' => rw [hf] at hs; rw [fs_finds_unique env _ rest h' h hs a]
+
+theorem fs_find_none_iff (env : Env) (hd : DigitsNotWs env.cs) (fuel : Nat) (pre rest : Str) (hl : rest.length < fuel) :
+    findInlineQuantity (α := α) env fuel pre rest = none ↔ FsNothing α env rest := by
+  have hs := fs_find_spec (α := α) env hd fuel pre rest hl
+  constructor
+  · intro e; rw [e] at hs; exact hs
+  · intro a
+    cases hf : findInlineQuantity (α := α) env fuel pre rest with
+    | none => rfl
+    | some h' => rw [hf] at hs; exact absurd a (fs_finds_not_nothing env _ rest h' hs)
+
 end Cook
